@@ -72,6 +72,9 @@ deriving Repr, Inhabited
 inductive SerErr where
   | keyMustBeAString
   | floatKeyMustBeFinite
+  /-- `value::Serializer` only (C15): a 128-bit integer outside [i64::MIN, u64::MAX] without
+      `arbitrary_precision` (`ErrorCode::NumberOutOfRange`); the text serializer never raises it -/
+  | numberOutOfRange
 deriving DecidableEq, Repr, Inhabited
 
 /-- external printers (crates `itoa`, `ryu`) as parameters -/
